@@ -6,6 +6,7 @@
    order, none partial, and every accessor returns the encoded value (None for absent fields). *)
 Require Import BMA.lib.Base BMA.lib.Reflect BMA.gen.GenTypes BMA.gen.GenPure BMA.lib.Prog BMA.gen.GenProg BMA.gen.GenMeta
                BMA.lib.Encode BMA.gen.GenApi BMA.proofs.Fifo BMA.proofs.FifoSpec BMA.spec.Datasheet.
+Require Import BMA.lib.Run BMA.proofs.Generic.
 From Coq Require Import Lia.
 Open Scope N_scope.
 
@@ -32,13 +33,17 @@ Proof. exact frame_decodes. Qed.
 Theorem c04_8bit_low_bits_zero : forall ax x y z, wf_frame (FData ax false x y z) -> (x mod 16 = 0 /\ y mod 16 = 0 /\ z mod 16 = 0)%Z.
 Proof. intros ax x y z [_ [[_ Hx] [[_ Hy] [_ Hz]]]]. auto. Qed.
 
-(* read_fifo_frames: guard on the shadow power flag, then ONE burst read of exactly the buffer length from the FIFO
-   data register, the bytes served are the iterator's buffer *)
-Theorem c04_read_is_one_burst : forall buffer,
-  BMA400_read_fifo_frames buffer =
-  Get (fun d => if Config_is_fifo_read_disabled d then Fail (BMA400Error_ConfigBuildError ConfigError_FifoReadWhilePwrDisable)
-                else Read ds_FifoData_addr (len buffer) (fun served => Ret (FifoFrames_new served))).
-Proof. intro buffer. reflexivity. Qed.
+(* read_fifo_frames on the register-level semantics: refused without traffic while the shadow power flag is set; otherwise ONE burst
+   read of exactly the buffer length from the FIFO data register, and the bytes served are the iterator's buffer *)
+Theorem c04_read_is_one_burst : forall buffer d c evs,
+  sem (BMA400_read_fifo_frames buffer) d c evs =
+  if Config_is_fifo_read_disabled d then AFailed (BMA400Error_ConfigBuildError ConfigError_FifoReadWhilePwrDisable) d c evs
+  else ADone (FifoFrames_new (fst (chip_read ds_FifoData_addr (len buffer) c))) d (snd (chip_read ds_FifoData_addr (len buffer) c))
+             (evs ++ [EvRead ds_FifoData_addr (len buffer)]).
+Proof.
+  intros buffer d c evs. unfold BMA400_read_fifo_frames. cbv beta zeta. cbn [bind get_shadow read_register sem].
+  destruct (Config_is_fifo_read_disabled d); cbn [negb bind read_register sem]; reflexivity.
+Qed.
 
 Example c04_example :
   let fs := [FCtrl true false true; FData 5 true (-1) 0 2047; FData 2 false 0 (-2048) 0; FTime 1 2 3] in
